@@ -1,4 +1,5 @@
 import Gtree.Lemmas.SourceConfig
+import Gtree.Lemmas.HeapGrower
 import Gtree.Lemmas.SourceRefines
 import Gtree.Lemmas.Validate
 import Gtree.Props.C05
@@ -230,4 +231,22 @@ open Gtree.Src in
 theorem C07_mkdir_config_in_the_source (xs : List (Option (config → config))) :
     newConfigWithoutEncode xs = { newConfig xs with encode := encodeDefault } :=
   newConfigWithoutEncode_src xs
+end Gtree
+
+namespace Gtree
+/-- Tie to the source, pointer code included (heap mode of /verif/translate, regenerated on every run): WHEN and IN
+    WHICH ORDER names are validated.  The translated grower (`grow` → `assemble` → `assembleBranch` →
+    `Node.validatePath`, over an explicit heap) returns, for every heap that holds a forest and every fuel above
+    `2·size + 1`, exactly the model's verdict: with validation enabled the first invalid name or path in pre-order
+    over the whole forest (`validateVisits` of the grown visits), otherwise nothing — and every node's path it
+    validates is the one the model computes.  Mkdir and Verify enable validation before they touch the file
+    system (facts), so "validates first" is a statement about this function. -/
+theorem C07_grower_validates_in_the_source (dg : SrcH.defaultGrowerSimple) (ts : List T) (h : SrcH.Heap)
+    (rs : List Go.Ptr) (fuel : Nat) (hr : SrcH.ReprRoots h ts rs) (hnd : (SrcH.ptrsKids h ts rs).Nodup)
+    (hf : 2 * sizeList ts + 1 ≤ fuel) :
+    ∃ h', SrcH.defaultGrowerSimple.grow fuel h dg rs =
+      some (h', if dg.enabledValidation then (validateVisits (ts.flatMap (growRoot (SrcH.fmtOf dg)))).map verrSrc
+                else none) := by
+  obtain ⟨h', hrun, _⟩ := SrcH.grow_forest dg ts h rs fuel hr hnd hf
+  exact ⟨h', hrun⟩
 end Gtree
